@@ -79,6 +79,35 @@ KnotCase genKnots(Ctx &c, Rng &g, bool wellScaled, int scaleExp) {
   return kc;
 }
 
+// Exhaustive mode: case k enumerates (order p, number of distinct values nd in
+// 2..5, every multiplicity vector in {1..p+2}^nd); the distinct values are
+// drawn at random. Returns false once k is beyond the enumeration.
+bool genKnotsEnum(Ctx &c, Rng &g, bool wellScaled, KnotCase &kc) {
+  uint64_t k = c.caseId;
+  for (size_t p = 0; p <= MAXP; p++)
+    for (size_t nd = 2; nd <= 5; nd++) {
+      uint64_t count = 1;
+      for (size_t i = 0; i < nd; i++) count *= (p + 2);
+      if (k >= count) {
+        k -= count;
+        continue;
+      }
+      kc.p = p;
+      kc.distinct = genGrid(g, wellScaled, nd, nd);
+      kc.mult.assign(nd, 1);
+      for (size_t i = 0; i < nd; i++) {
+        kc.mult[i] = 1 + (size_t)(k % (p + 2));
+        k /= (p + 2);
+      }
+      kc.pattern = "enumerated";
+      for (size_t i = 0; i < nd; i++)
+        for (size_t r = 0; r < kc.mult[i]; r++) kc.knots.push_back(kc.distinct[i]);
+      kc.route = (int)g.below(4);
+      return true;
+    }
+  return false;
+}
+
 std::string knotStr(const KnotCase &kc) {
   return std::string("{p:") + std::to_string(kc.p) + ",route:" +
          std::to_string(kc.route) + ",pattern:" + kc.pattern +
@@ -267,7 +296,14 @@ void runCase(Ctx &c) {
     scaleExp = emax * num[(c.caseId / ((MAXP + 1) * 8)) % 8] / 4;
     c.count(scaleExp == 0 ? "scale:1" : (scaleExp < 0 ? "scale:tiny" : "scale:huge"));
   }
-  KnotCase kc = genKnots(c, g, wellScaled, scaleExp);
+  KnotCase kc;
+  if (c.param("enum", 0)) {
+    if (!genKnotsEnum(c, g, wellScaled, kc)) {
+      c.count("beyond-enumeration");
+      return;
+    }
+  } else
+    kc = genKnots(c, g, wellScaled, scaleExp);
   dispatchOrder<MAXP>(kc.p, [&](auto P) { checkOrder<T, P.value>(c, kc); });
 }
 
